@@ -26,11 +26,11 @@ ANCHORS = ["Match._resolve", "AttributeAssignment.infer_condition_between_attrib
 
 
 def plan(tier):
-    return {"cases": 3000 if tier == "quick" else 80000, "shards": 16, "case_timeout": 20, "shard_timeout": 3000,
+    return {"cases": 4200 if tier == "quick" else 80000, "shards": 16, "case_timeout": 20, "shard_timeout": 3000,
             "min_nontrivial": 60,
             "min_counters": {"elements_compared": 500, "kind:lit": 300, "kind:match": 300, "kind:any": 200,
                              "kind:all": 200, "kind:anymatch": 100, "selects_checked": 50,
-                             "builtin_collection_constraints": 100, "patterns_over_a_tuple_field": 150, "patterns_built_from_reused_sub_patterns": 200, "patterns_over_an_optional_collection": 150, "patterns_quantified_twice": 150}}
+                             "builtin_collection_constraints": 100, "patterns_over_a_tuple_field": 150, "patterns_built_from_reused_sub_patterns": 200, "patterns_over_an_optional_collection": 150, "patterns_quantified_twice": 150, "patterns_over_a_collection_with_missing_members": 150, "untyped_patterns_reused": 100}}
 
 
 def setup(ctx):
@@ -54,13 +54,15 @@ def gen_world(rng):
                       "weight": rng.randint(0, 1), "ribbon": rng.choice("rs"),
                       "spare": rng.randrange(len(parts)) if rng.random() < 0.6 else None,
                       # a collection that may be missing
-                      "extras": [rng.randrange(len(parts)) for _ in range(rng.randint(0, 2))] if rng.random() < 0.6 else None})
+                      "extras": [rng.randrange(len(parts)) for _ in range(rng.randint(0, 2))] if rng.random() < 0.6 else None,
+                      # a collection whose members may be missing
+                      "slots": [rng.choice([None, rng.randrange(len(parts))]) for _ in range(rng.randint(0, 3))]})
     shelves = [{"code": rng.choice(["S0", "S1"]), "main": rng.randrange(len(boxes)),
                 "boxes": [rng.randrange(len(boxes)) for _ in range(rng.randint(0, 3))]} for _ in range(rng.randint(0, 3))]
     return {"parts": parts, "boxes": boxes, "shelves": shelves}
 
 
-ELEM_TYPE = {"lid": "Part", "spare": "Part", "parts": "Part", "row": "Part", "extras": "Part", "main": "Box", "boxes": "Box"}
+ELEM_TYPE = {"lid": "Part", "spare": "Part", "parts": "Part", "row": "Part", "extras": "Part", "slots": "Part", "main": "Box", "boxes": "Box"}
 
 
 def gen_part_pattern(rng, allow_empty=False):
@@ -132,6 +134,12 @@ def gen_box_pattern(rng, world, depth, allow_select):
         cand = [rng.randrange(n) for _ in range(rng.choice([1, 1, 2]))]
         attrs["extras"] = (["litobj", rng.randrange(n)] if k < 0.35 else ["match", gen_part_pattern(rng)] if k < 0.6 else
                            ["anymatch", gen_part_pattern(rng)] if k < 0.8 else ["any", cand])
+    if rng.random() < 0.2:
+        # a collection attribute declared List[Optional[Part]]: a missing member matches no pattern
+        k = rng.random()
+        cand = [rng.randrange(n) for _ in range(rng.choice([1, 1, 2]))]
+        attrs["slots"] = (["litobj", rng.randrange(n)] if k < 0.3 else ["match", gen_part_pattern(rng)] if k < 0.65 else
+                          ["anymatch", gen_part_pattern(rng)] if k < 0.85 else ["any", cand])
     if "parts" in attrs and rng.random() < 0.25:
         # the same elements through a field declared Tuple[Part, ...]
         attrs = {("row" if a == "parts" else a): c for a, c in attrs.items()}
@@ -197,6 +205,7 @@ def make_world(w, mm):
         boxes.append(getattr(mm, b["cls"])(label=b["label"], lid=parts[b["lid"]], parts=pl, row=tuple(pl), tags=list(b["tags"]), weight=b["weight"],
                                            spare=parts[b["spare"]] if b.get("spare") is not None else None,
                                            extras=[parts[i] for i in b["extras"]] if b.get("extras") is not None else None,
+                                           slots=[parts[i] if i is not None else None for i in b.get("slots", [])],
                                            **({"ribbon": b.get("ribbon", "")} if b["cls"] == "FancyBox" else {})))
     shelves = [mm.Shelf(code=s["code"], main=boxes[s["main"]], boxes=[boxes[i] for i in s["boxes"]]) for s in w["shelves"]]
     return parts, boxes, shelves
@@ -358,6 +367,7 @@ def run(spec, ctx):
     parts, boxes, shelves = make_world(spec["world"], mm)
     C["patterns_over_a_tuple_field"] += "row=" in skeleton(spec["pattern"])
     C["patterns_over_an_optional_collection"] += "extras=" in skeleton(spec["pattern"])
+    C["patterns_over_a_collection_with_missing_members"] += "slots=" in skeleton(spec["pattern"])
     dom = boxes + parts + shelves
     pat = spec["pattern"]
     ks = kinds(pat, set())
@@ -472,6 +482,21 @@ def run(spec, ctx):
         if again != {id(r) for r in rows if not (hasattr(r, "keys") and not isinstance(r, mm.Symbol))}:
             return {"status": "fail", "kind": "reuse:pattern-mismatch", "key": None,
                     "detail": f"the pattern quantified a second time gives {len(again)} elements, the first time {len(rows)} rows | " + skeleton(pat)}
+        # a pattern written without a type, used for attributes of two different types
+        try:
+            anything = M.match()()
+            first_use = {id(r) for r in an(M.entity_matching(mm.Box, list(boxes))(lid=anything)).evaluate()}
+            second_use = {id(r) for r in an(M.entity_matching(mm.Shelf, list(shelves))(main=anything)).evaluate()}
+        except Exception as e:
+            from krrood.entity_query_language import symbolic as S
+            S.SymbolicExpression._symbolic_expression_stack_.clear()
+            return {"status": "fail", "kind": "reuse:exception:" + type(e).__name__, "key": None,
+                    "detail": f"an untyped pattern used for two attributes: {type(e).__name__}: {e}"[:300]}
+        C["untyped_patterns_reused"] += 1
+        if first_use != {id(b) for b in boxes} or second_use != {id(s_) for s_ in shelves}:
+            return {"status": "fail", "kind": "reuse:pattern-mismatch", "key": None,
+                    "detail": f"anything = match()(): Box(lid=anything) gives {len(first_use)} of {len(boxes)} boxes, then Shelf(main=anything) "
+                              f"gives {len(second_use)} of {len(shelves)} shelves"}
         # the pattern objects written for the attributes are used in a second pattern
         try:
             got2 = {id(r) for r in an(M.entity_matching(root_T, list(dom))(**kw)).evaluate()}
